@@ -108,9 +108,9 @@ theorem segSecs_append (a b : List Seg) : segSecs (a ++ b) = segSecs a ++ segSec
 
 theorem suiteProg_secs (wi : Nat) (w : Worker) :
     segSecs (suiteProg wi w).segs =
-      (sectionsAbort w.faults {} (testsOps 0 w.tests)).1 ++
-        (if (sectionsAbort w.faults {} (testsOps 0 w.tests)).2.2 || w.boom
-         then (sectionsAbort w.faults (sectionsAbort w.faults {} (testsOps 0 w.tests)).2.1 brokenOps).1 else []) := by
+      (sectionsAbort w.faults {} (workerOps w)).1 ++
+        (if (sectionsAbort w.faults {} (workerOps w)).2.2 || w.boom
+         then (sectionsAbort w.faults (sectionsAbort w.faults {} (workerOps w)).2.1 brokenOps).1 else []) := by
   unfold suiteProg
   dsimp only
   split <;> simp [segSecs_append, segSecs_map_sec, segSecs]
@@ -595,14 +595,43 @@ theorem testsOps_noBroken : ∀ (ts : List WTest) (j : Nat), (testsOps j ts).fil
       simp only [testsOps, List.filter_append, testsOps_noBroken ts (j + 1), List.append_nil, testOps]
       simp
 
+theorem testsOpsP_noBroken (p : Bool) : ∀ (ts : List WTest) (j : Nat), (testsOpsP p j ts).filter (· == .outcome .error .broken) = []
+  | [], _ => rfl
+  | t :: ts, j => by
+      simp only [testsOpsP, List.filter_append, testsOpsP_noBroken p ts (j + 1), List.append_nil, testOps]
+      cases p <;> simp
+
+theorem workerOps_noBroken (w : Worker) : (workerOps w).filter (· == .outcome .error .broken) = [] := by
+  simp only [workerOps, List.filter_append, testsOpsP_noBroken, List.nil_append]
+  split <;> simp
+
+theorem testsOpsP_false : ∀ (ts : List WTest) (j : Nat), testsOpsP false j ts = testsOps j ts
+  | [], _ => rfl
+  | t :: ts, j => by simp [testsOpsP, testsOps, testsOpsP_false ts (j + 1)]
+
+/-- **C13 (a stock `unittest.TestSuite` partition)** — a sub-suite that polls does exactly what a plain one does, plus reads of
+`result.shouldStop`: one before each test and one before the element that breaks the run; without `polls` the program is the
+plain one. -/
+theorem C13_polls_only_add_reads (w : Worker) :
+    (workerOps w).filter (· != .ctl .shouldStop) = testsOps 0 w.tests ∧ (w.polls = false → workerOps w = testsOps 0 w.tests) := by
+  have h : ∀ (p : Bool) (ts : List WTest) (j : Nat), (testsOpsP p j ts).filter (· != .ctl .shouldStop) = testsOps j ts := by
+    intro p ts
+    induction ts with
+    | nil => intro j; rfl
+    | cons t ts ih => intro j; cases p <;> simp [testsOpsP, testsOps, testOps, ih (j + 1)]
+  constructor
+  · simp only [workerOps, List.filter_append, h]
+    split <;> simp
+  · intro hp; simp [workerOps, hp, testsOpsP_false]
+
 theorem suite_broken_count (wi : Nat) (w : Worker) (hf : w.faults = []) :
     (((segSecs (suiteProg wi w).segs).flatten).filter isBE).length = (if w.boom then 1 else 0) := by
   rw [suiteProg_secs, hf]
-  obtain ⟨h1, h2⟩ := sectionsAbort_nofault (testsOps 0 w.tests) {}
-  simp only [h1, Bool.false_or, List.flatten_append, List.filter_append, List.length_append, h2, testsOps_noBroken,
+  obtain ⟨h1, h2⟩ := sectionsAbort_nofault (workerOps w) {}
+  simp only [h1, Bool.false_or, List.flatten_append, List.filter_append, List.length_append, h2, workerOps_noBroken,
     List.length_nil, Nat.zero_add]
   split
-  · obtain ⟨_, h4⟩ := sectionsAbort_nofault brokenOps (sectionsAbort [] {} (testsOps 0 w.tests)).2.1
+  · obtain ⟨_, h4⟩ := sectionsAbort_nofault brokenOps (sectionsAbort [] {} (workerOps w)).2.1
     rw [h4]; simp [brokenOps]
   · rfl
 
